@@ -223,6 +223,83 @@ def directed_scripts():
     return out
 
 
+REAL_KINDS = ["ok", "ok", "ackLost", "ackCut", "ackNever", "rejTemp", "rejTemp2", "rejPerm", "netTransient"]
+
+
+def real_script(rng, sid, pv=None, cuts=None):
+    """The Writer on a kafka.Transport against the fake cluster (cfg.net = "real"): the outcome table is applied on the wire."""
+    pv = pv or rng.choice([2, 3, 7, 7])
+    nparts = {"t": rng.randint(1, 2)}
+    cfg = {"batchSize": rng.choice([1, 2, 3]), "batchBytes": rng.choice([120, 400, 100000]), "maxAttempts": rng.choice([1, 2, 3, 4]), "acked": True,
+           "async": rng.random() < 0.25, "topic": "t", "nparts": nparts,   # (acked only: without acknowledgements the broker's side is asynchronous to the client) "batchTimeoutMs": rng.choice([5, 15]),
+           "compression": rng.choice([0, 0, 1, 2, 3, 4]) if pv >= 3 else rng.choice([0, 0, 1, 2]), "net": "real", "produceVersion": pv, "writeTimeoutMs": 150}
+    outcomes = {}
+    for p in range(nparts["t"]):
+        seq = []
+        for _ in range(rng.randint(0, 5)):
+            k = rng.choice(REAL_KINDS)
+            if k == "ackCut":
+                k = "ackCut@%d" % (cuts.pop() if cuts else rng.randint(0, 70))
+            seq.append(k)
+        outcomes["t/%d" % p] = seq
+    steps, c = [], 0
+    for g in range(1, rng.randint(1, 3) + 1):
+        for _ in range(rng.randint(1, 3)):
+            c += 1
+            msgs = []
+            for _ in range(rng.randint(1, 4)):
+                m = {"sz": rng.choice([40, 60, 100]), "topic": "", "p": rng.randrange(nparts["t"])}
+                if pv >= 3 and rng.random() < 0.2:
+                    m["sz"], m["hv"] = 100, rng.choice([10, 40])
+                msgs.append(m)
+            steps.append({"op": "call", "c": c, "g": g, "msgs": msgs})
+            if rng.random() < 0.3:
+                steps.append({"op": "sleep", "ms": rng.choice([2, 20])})
+    for k in range(1, c + 1):
+        steps.append({"op": "waitcall", "c": k})
+    if rng.random() < 0.3:
+        steps.append({"op": "close"})
+    return {"id": sid, "cfg": cfg, "steps": steps, "outcomes": outcomes}
+
+
+def real_scripts(seed, n):
+    rng = random.Random(seed * 2750159 + 5)
+    out = []
+    # the acknowledgement cut at every byte position, per produce version (C17: the Writer continues on a new connection)
+    for pv in (2, 3, 7):
+        cuts = list(range(0, 64))
+        k = 0
+        while cuts:
+            sc = real_script(rng, "W-cut-v%d-%d" % (pv, k), pv=pv, cuts=cuts)
+            # make sure a cut is actually planned in each of these
+            if not any(o.startswith("ackCut") for seq in sc["outcomes"].values() for o in seq):
+                sc["outcomes"]["t/0"] = ["ackCut@%d" % cuts.pop()] + sc["outcomes"]["t/0"]
+            sc["cfg"]["acked"] = True
+            sc["cfg"]["maxAttempts"] = max(2, sc["cfg"]["maxAttempts"])
+            out.append(sc)
+            k += 1
+    return out + [real_script(rng, "W%d-%d" % (seed, k)) for k in range(n)]
+
+
+def derive_retriable(trace):
+    """Real-transport traces do not know beforehand whether the Writer will treat a failed attempt as retriable (that is
+    decided by the error the real Transport surfaces).  For the conformance pass the field is filled from what the
+    Writer then did: another attempt of the same batch => retriable; batch completed with attempts left => not."""
+    cfg = trace[0]
+    idx = [k for k, e in enumerate(trace) if e.get("ev") == "produce"]
+    count = {}
+    for k in idx:
+        e = trace[k]
+        key = json.dumps([e["tp"], e["msgs"]])
+        count[key] = count.get(key, 0) + 1
+        if e["ok"]:
+            e["retriable"] = False
+            continue
+        again = any(x.get("ev") == "produce" and x["tp"] == e["tp"] and x["msgs"] == e["msgs"] for x in trace[k + 1:])
+        e["retriable"] = True if again else count[key] >= cfg.get("maxAttempts", 1)
+    return trace
+
+
 def gen_scripts(seed, n):
     rng = random.Random(seed * 7919 + 13)
     return directed_scripts() + [gen_script(rng, "R%d-%d" % (seed, k)) for k in range(n)]
@@ -338,6 +415,31 @@ def conformance(ctx, traces):
     return accepted, divs
 
 
+def real_part(ctx, invs, aprops, cuts):
+    """Writer -> kafka.Transport -> in-memory network -> fake cluster; cuts=True: only the family that cuts the
+    acknowledgement at every byte (C17), else the seeded scenarios plus a sample of that family."""
+    n = 40 if ctx.tier == "quick" else 600
+    allsc = real_scripts(ctx.seed, n)
+    cutsc = [s for s in allsc if s["id"].startswith("W-cut-")]
+    if cuts:
+        scripts = cutsc
+    else:
+        scripts = [s for s in allsc if not s["id"].startswith("W-cut-")] + (cutsc[::8] if ctx.tier == "quick" else cutsc)
+    traces = [derive_retriable(t) for t in run_scripts(ctx, scripts, "real")]
+    checked = monitor(ctx, scripts, traces, invs, aprops)
+    accepted, divs = conformance(ctx, traces)
+    kinds = {}
+    for t in traces:
+        for e in t:
+            if e.get("ev") == "produce":
+                k = "%s applied=%s acked=%s v%d" % (e["kind"], e["applied"], e["ok"], e.get("v", -1))
+                kinds[k] = kinds.get(k, 0) + 1
+    cutpos = sorted({e["cut"] for t in traces for e in t if e.get("ev") == "produce" and e.get("cut", -1) >= 0})
+    ctx.log("real transport: %d scenarios, %d monitored, %d conform, %d diverge" % (len(scripts), checked, accepted, len(divs)))
+    return {"scenarios": len(scripts), "traces_monitored": checked, "traces_validated_against_impl": accepted, "divergence_count": len(divs),
+            "divergences_full": divs, "produce_outcomes": kinds, "ack_cut_positions": len(cutpos), "trace_events": sum(len(t) for t in traces)}
+
+
 def run(ctx):
     prop, tier, seed = ctx.prop, ctx.tier, ctx.seed
     invs = PROP_INVS[prop]
@@ -378,6 +480,12 @@ def run(ctx):
             extra_rounds += 1
             if ctx.violations:
                 break
+    # 5. the same Writer on the real kafka.Transport against the fake cluster: the outcome table applied on the wire
+    real = real_part(ctx, invs + MON_EXTRA.get(prop, []), MON_ACTION_PROPS.get(prop, []), cuts=False)
+    cov["real_transport"] = real
+    checked += real["traces_monitored"]
+    accepted += real["traces_validated_against_impl"]
+    divs += real.pop("divergences_full")
     nev = sum(len(t) for t in traces)
     cov.update({"traces_validated_against_impl": accepted, "traces_monitored": checked, "trace_events": nev,
                 "scripts_generated": len(scripts), "divergences": divs[:10], "divergence_count": len(divs),
